@@ -182,6 +182,65 @@ pub fn build<R: Res>(t: &Tree) -> Option<Built<R>> {
                 Built::Overflow(a, b) => return Some(Built::Overflow(a, b)),
             }
         }
+        10 => {
+            // a chain built with the builder idioms on statically typed values (the members are probes around the marker
+            // selectors best / worst / random): [10, style, [weights]] with 2..4 weights;
+            // style 0: one expression `Weighted::new(..).with_item_and_weight(..).with_item_and_weight(..)` (chained on the
+            // Result), 1: unwrapped after every step, 2: `with_weighted_item(Weighted::new(..))`, 3: 1 and 2 mixed
+            use ec_core::weighted::with_weighted_item::WithWeightedItem;
+            let style = l.get(1)?.int()?;
+            let ws: Vec<u32> = l.get(2)?.list()?.iter().map(|w| w.int().and_then(|x| u32::try_from(x).ok())).collect::<Option<_>>()?;
+            if !(2..=4).contains(&ws.len()) || !(0..=3).contains(&style) {
+                return None;
+            }
+            let member = |i: usize| -> Option<Sel<R>> {
+                let id = PROBE_NEXT.fetch_add(1, std::sync::atomic::Ordering::SeqCst);
+                if id >= 64 {
+                    return None;
+                }
+                let inner: Sel<R> = match i % 3 {
+                    0 => Box::new(Best),
+                    1 => Box::new(Worst),
+                    _ => Box::new(Random),
+                };
+                Some(Box::new(UseProbe { inner, id }))
+            };
+            macro_rules! step {
+                ($chain:expr, $i:expr) => {{
+                    let m = member($i)?;
+                    match style {
+                        0 => $chain.with_item_and_weight(m, ws[$i]),
+                        1 => match $chain {
+                            Ok(c) => c.with_item_and_weight(m, ws[$i]),
+                            Err(e) => Err(e),
+                        },
+                        2 => $chain.with_weighted_item(Weighted::new(m, ws[$i])),
+                        _ => match $chain {
+                            Ok(c) => c.with_weighted_item(Weighted::new(m, ws[$i])),
+                            Err(e) => Err(e),
+                        },
+                    }
+                }};
+            }
+            macro_rules! done {
+                ($r:expr) => {
+                    match $r {
+                        Ok(p) => Box::new(p) as Sel<R>,
+                        Err(WeightSumOverflow(a, b)) => return Some(Built::Overflow(a, b)),
+                    }
+                };
+            }
+            let first: Result<Weighted<Sel<R>>, WeightSumOverflow> = Ok(Weighted::new(member(0)?, ws[0]));
+            let two = step!(first, 1);
+            match ws.len() {
+                2 => done!(two),
+                3 => done!(step!(two, 2)),
+                _ => {
+                    let three = step!(two, 2);
+                    done!(step!(three, 3))
+                }
+            }
+        }
         5 | 6 => match build_w::<R>(t)? {
             Ok(w) => Box::new(w),
             Err(WeightSumOverflow(a, b)) => return Some(Built::Overflow(a, b)),
@@ -427,6 +486,15 @@ fn gen_c06(tier: &str, rng: &mut Sm) -> Gen {
             }
         }
     }
+    // dynamic lists whose usize weights do not sum within usize: an error value, never a panic
+    for ws in [vec![u64::MAX as i128, 1], vec![u64::MAX as i128 - 1, 1, 1], vec![1i128 << 63, 1 << 63], vec![1, u64::MAX as i128, 0]] {
+        let mut d = tl![A(7)];
+        for (i, w) in ws.iter().enumerate().rev() {
+            d = tl![A(8), tl![A((i % 3) as i128)], a(*w), d];
+        }
+        let pop = matrix(rng, 4, 2, 3);
+        g.inputs.push(case(rng, 20, 1, pop, d));
+    }
     // a population of 300 individuals with pairwise distinct totals (two cases each): membership and law where a byte-sized
     // index or a different sampling path would show
     {
@@ -657,6 +725,15 @@ fn gen_c13(tier: &str, rng: &mut Sm) -> Gen {
     for ws in [vec![1i64 << 30, 1 << 31], vec![1 << 30, 1 << 30, 1 << 30], vec![1 << 31, (1 << 31) - 1], vec![3 << 30, 1, 1 << 29], vec![1, 4294967294]] {
         fixed.push(ws);
     }
+    // the builder idioms on statically typed chains: one expression, unwrapped after every step, with_weighted_item, mixed
+    for ws in [vec![1i64, 1, 6], vec![2, 3], vec![3, 0, 2, 5], vec![0, 0, 4], vec![5, 1, 0], vec![0, 0], vec![1, 2, 3, 4], vec![7, 0, 0, 1],
+               vec![4294967295, 0], vec![4294967295, 1], vec![2147483648, 2147483647, 1], vec![1, 4294967294, 0, 1]] {
+        for style in 0..4i128 {
+            let spec = tl![A(10), a(style), L(ws.iter().map(|w| a(*w as i128)).collect())];
+            let d = if ws.iter().all(|w| *w == 0) { 200 } else { draws };
+            g.inputs.push(case(rng, d, 1, pop.clone(), spec));
+        }
+    }
     for ws in fixed.iter() {
         let leaves: Vec<Tree> = ws.iter().enumerate().map(|(i, w)| tl![A(5), a(*w), marker(i)]).collect();
         let mut left = leaves[0].clone();
@@ -684,6 +761,6 @@ fn gen_c13(tier: &str, rng: &mut Sm) -> Gen {
         }
         g.inputs.push(case(rng, n, 1, pop.clone(), d));
     }
-    g.meta("generator", "marker members (best / worst / random over a fixed 5-individual population), each wrapped in a probe that counts its uses; weights of 2^29..2^31 with totals far from a power of two; every all-zero weight vector and every single-positive weight vector of length 1..4 in all three structures; left-nested chains, right-nested chains and random trees of <= 5 weighted members, the dynamic list with the same weights; weights from {0,1,2,3,7} and u32 boundaries {0,1,2^31,2^32-2,2^32-1}");
+    g.meta("generator", "marker members (best / worst / random over a fixed 5-individual population), each wrapped in a probe that counts its uses; weights of 2^29..2^31 with totals far from a power of two; chains of 2..4 members built with the builder idioms (with_item_and_weight / with_weighted_item, in one expression or unwrapped after every step); every all-zero weight vector and every single-positive weight vector of length 1..4 in all three structures; left-nested chains, right-nested chains and random trees of <= 5 weighted members, the dynamic list with the same weights; weights from {0,1,2,3,7} and u32 boundaries {0,1,2^31,2^32-2,2^32-1}");
     g
 }
